@@ -302,6 +302,13 @@ type SpecFile struct {
 	Order    []string
 }
 
+func specRef(base, sec string) string {
+	if sec == "core" {
+		return base
+	}
+	return base + ":" + sec
+}
+
 func (p *Prog) loadSpecFile(path string) error {
 	b, err := os.ReadFile(path)
 	if err != nil {
@@ -344,7 +351,7 @@ func (p *Prog) loadSpecFile(path string) error {
 				return fmt.Errorf("%s: %s: %v", path, f.Name, err)
 			}
 			p.SpecFns[f.Name] = f
-			p.SpecFileOf[f.Name] = base
+			p.SpecFileOf[f.Name] = specRef(base, sec)
 			add(p.printDecl(f))
 		case "define-fun", "define-fun-rec":
 			f := &SpecFn{Name: x.List[1].Atom}
@@ -362,7 +369,7 @@ func (p *Prog) loadSpecFile(path string) error {
 			}
 			f.Body = x.List[4]
 			p.SpecFns[f.Name] = f
-			p.SpecFileOf[f.Name] = base
+			p.SpecFileOf[f.Name] = specRef(base, sec)
 			add(p.printDefine(x.Head(), f))
 			p.OpaqueDecl[p.printDefine(x.Head(), f)] = p.printDecl(f)
 		case "defrec":
@@ -382,7 +389,7 @@ func (p *Prog) loadSpecFile(path string) error {
 			}
 			f.Body = x.List[4]
 			p.SpecFns[f.Name] = f
-			p.SpecFileOf[f.Name] = base
+			p.SpecFileOf[f.Name] = specRef(base, sec)
 			p.Recs[f.Name] = true
 			add(p.printDecl(f))
 		case "defmacro":
